@@ -20,7 +20,7 @@
      runtime_reapplied   data built under one value of the unhashed options and loaded under another behaves
                          as if built under the latter (C11 round trip; fails for edit_terminals and
                          postlex.always_accept: F15) *)
-From Coq Require Import List Ascii Bool Arith Lia.
+From Coq Require Import String List Ascii Bool Arith Lia.
 From LV Require Import Cache.Bytes Cache.PyRepr Gen.CacheKey Cache.Cache Cache.PyRepr_proofs.
 Import ListNotations.
 
@@ -545,3 +545,17 @@ Section Bundled.
                (snd (construct R sha D P encU decU encD decD build load fl c e))).
   Proof. destruct IO, RL. eapply construct_spec; eauto. Qed.
 End Bundled.
+
+(* ---- the option sets regenerated from the source ---------------------------------------------------- *)
+Lemma unhashable_objects : forall n, In n unhashable ->
+  In n ["transformer"; "postlex"; "lexer_callbacks"; "edit_terminals"; "_plugins"]%string.
+Proof.
+  unfold unhashable. intros n H.
+  repeat (destruct H as [<- | H]; [cbn; tauto|]). destruct H.
+Qed.
+
+Lemma unhashable_not_reapplied : exists n, In n unhashable /\ ~ In n load_allowed.
+Proof.
+  exists "edit_terminals"%string. split; [cbn; tauto|].
+  unfold load_allowed. intros H. repeat (destruct H as [H | H]; [discriminate|]). destruct H.
+Qed.
